@@ -16,6 +16,9 @@ type fetchUnit struct {
 	// Pending
 	coroutine       func(cycle int, app risc.Application, ctx *risc.Context)
 	remainingCycles int
+	// newSequence is set by a jump or a flush: what is fetched from then on is
+	// younger than everything fetched before, whatever its pc
+	newSequence bool
 }
 
 func newFetchUnit(mmu *memoryManagementUnit, outBus *comp.BufferedBus[int32]) *fetchUnit {
@@ -26,6 +29,10 @@ func newFetchUnit(mmu *memoryManagementUnit, outBus *comp.BufferedBus[int32]) *f
 }
 
 func (u *fetchUnit) cycle(cycle int, app risc.Application, ctx *risc.Context) {
+	if u.newSequence {
+		ctx.IncSequenceID()
+		u.newSequence = false
+	}
 	if u.toCleanPending {
 		// The fetch unit may have sent to the bus wrong instruction, we make sure
 		// this is not the case by cleaning it
@@ -87,12 +94,14 @@ func (u *fetchUnit) reset(pc int32, cleanPending bool) {
 	u.coroutine = nil
 	u.pc = pc
 	u.toCleanPending = cleanPending
+	u.newSequence = true
 }
 
 func (u *fetchUnit) flush(pc int32) {
 	u.coroutine = nil
 	u.complete = false
 	u.pc = pc
+	u.newSequence = true
 }
 
 func (u *fetchUnit) isEmpty() bool {
